@@ -128,15 +128,6 @@ func thorough(id string, f checkFunc, p *Prog, r *Report, repo, verif string, ex
 
 	// --- the other direction: behaviour-preserving refactorings must stay silent.
 	// Only meaningful when the current tree itself is clean for this property.
-	for _, o := range r.obs {
-		if o.Status == "violated" {
-			extra["silence_calibration"] = "skipped: the current tree has violations of its own"
-			return
-		}
-	}
-	bpDir := filepath.Join(verif, "tools", "bp_variants")
-	bps, _ := filepath.Glob(filepath.Join(bpDir, "*.diff"))
-	sort.Strings(bps)
 	known := map[string]bool{}
 	if kf, err := loadKnown(filepath.Join(verif, "known_findings.json")); err == nil {
 		for _, k := range kf.Findings {
@@ -145,6 +136,15 @@ func thorough(id string, f checkFunc, p *Prog, r *Report, repo, verif string, ex
 			}
 		}
 	}
+	for _, o := range r.obs {
+		if o.Status == "violated" && !known[o.Key] {
+			extra["silence_calibration"] = "skipped: the current tree has violations of its own"
+			return
+		}
+	}
+	bpDir := filepath.Join(verif, "tools", "bp_variants")
+	bps, _ := filepath.Glob(filepath.Join(bpDir, "*.diff"))
+	sort.Strings(bps)
 	res2 := make([]string, len(bps))
 	var wg2 sync.WaitGroup
 	sem2 := make(chan struct{}, 8)
